@@ -321,7 +321,7 @@ func runProperty(eng *Engine, prop, tier string, timeout int, findings []Finding
 	}
 	var jobs []*solveJob
 	for _, in := range insts {
-		in.job = &solveJob{name: in.obl.Name, text: in.text}
+		in.job = &solveJob{name: in.obl.Name, text: in.text, cover: in.obl.Cover}
 		jobs = append(jobs, in.job)
 	}
 	for _, fd := range findings {
